@@ -42,19 +42,27 @@ Unencodable(b, i) ==
   ELSE IF b = "a64" THEN A64Unencodable(i)
   ELSE ""
 
-\* F.clauses: record table label |-> number of clause labels "<table>_<xtor>" defined in the file (computed by the loader
-\* from the label names only); a table with k >= 2 clauses must be followed by exactly k fixed-size jumps to its clause labels
+\* A jump table is recognised by its shape, not by its name: an address-taken label directly followed by two or more
+\* unconditional jumps (no other code has two unconditional jumps in a row: the second would be dead).  All of them must be
+\* fixed-size jumps to distinct, defined labels.  F.clauses: table label |-> number of clause labels "<table>_<xtor>" in the
+\* file, computed by the loader from the label names and 0 where the names are ambiguous (a label with that prefix is the
+\* prefix of a further label, as happens when a user type is called like a generated label); where it is known, the table
+\* has exactly that many entries.
+AnyJump(b, i) == (b = "x86" /\ i.op \in {"jmp", "jmpn"} /\ i.a[1].k = "lab") \/ (b = "a64" /\ i.op = "B")
+                 \/ (b = "rv64" /\ i.op = "JAL" /\ i.a[1].k = "reg" /\ i.a[1].r = "X0")
+RECURSIVE RunLen(_, _, _)
+RunLen(b, code, p) == IF p <= Len(code) /\ AnyJump(b, code[p]) THEN 1 + RunLen(b, code, p + 1) ELSE 0
 TableWhy(F) ==
   LET b == F.backend code == F.code
-      taken == {TakenLabel(b, code[i]) : i \in {j \in 1..Len(code) : AddressTaken(b, code[j])}}
-      bad == {t \in taken : t \in DOMAIN F.labels /\ t \in DOMAIN F.clauses /\ F.clauses[t] >= 2 /\
-                LET p == F.labels[t] k == F.clauses[t]
-                IN ~( /\ p + k <= Len(code)
-                      /\ \A j \in (p + 1)..(p + k) : FixedJump(b, code[j])
-                      /\ Cardinality({JumpTarget(b, code[j]) : j \in (p + 1)..(p + k)}) = k
-                      /\ \A j \in (p + 1)..(p + k) : JumpTarget(b, code[j]) \in DOMAIN F.labels )}
+      taken == {TakenLabel(b, code[i]) : i \in {j \in 1..Len(code) : AddressTaken(b, code[j])}} \cap DOMAIN F.labels
+      shape == {t \in taken : LET p == F.labels[t] n == RunLen(b, code, p + 1)
+                              IN n >= 2 /\ ~( /\ \A j \in (p + 1)..(p + n) : FixedJump(b, code[j])
+                                              /\ Cardinality({JumpTarget(b, code[j]) : j \in (p + 1)..(p + n)}) = n
+                                              /\ \A j \in (p + 1)..(p + n) : JumpTarget(b, code[j]) \in DOMAIN F.labels )}
+      count == {t \in taken : t \in DOMAIN F.clauses /\ F.clauses[t] >= 2 /\ RunLen(b, code, F.labels[t] + 1) # F.clauses[t]}
   IN IF F.jump_length # JumpSize(b) THEN "the backend's jump_length is not the size of one table entry"
-     ELSE IF bad # {} THEN "jump table " \o (CHOOSE t \in bad : TRUE) \o " is not a run of fixed-size jumps, one per clause"
+     ELSE IF shape # {} THEN "jump table " \o (CHOOSE t \in shape : TRUE) \o " is not a run of fixed-size jumps, one per clause"
+     ELSE IF count # {} THEN "jump table " \o (CHOOSE t \in count : TRUE) \o " is not a run of fixed-size jumps, one per clause"
      ELSE ""
 
 Why(F) ==
